@@ -7,5 +7,6 @@ CONSTANTS
   Certs = {"c1", "c2"}
   DevMatchRawPath = FALSE
   DevEmptyListMeansNoList = FALSE
+  DevClimbAndReturn = FALSE
 CONSTRAINT Report
 CHECK_DEADLOCK FALSE
